@@ -61,7 +61,7 @@ def obs_of(snap, target):
         return us, d
     hus, dh = side(target.hot_utilities)
     cus, dc = side(target.cold_utilities)
-    return dict(T=[float(x) for x in snap["T"]], HA=[float(x) for x in snap["H_net_actual"]],
+    return dict(T=[float(x) for x in snap["T"]], HA=[float(x) for x in snap["H_net_actual"]], Hn=[float(x) for x in snap["H_net"]],
                 Hhn=[float(x) for x in snap["H_hot_net"]], Hcn=[float(x) for x in snap["H_cold_net"]],
                 Hut=[float(x) for x in snap["H_net_ut"]], hus=hus, cus=cus, dh=dh, dc=dc,
                 qh=float(target.hot_utility_target), qc=float(target.cold_utility_target),
@@ -651,6 +651,39 @@ def run_e2e_suite(ctx, prop, inputs, suite, names=None):
                         duties={nm: dict(hot=list(zip(d["names_h"], d["dh"])), cold=list(zip(d["names_c"], d["dc"])), Qh=d["qh"], Qc=d["qc"])
                                 for nm, st, _, _, d in objs if nm.endswith("Direct Integration") and "dh" in d}), limit=5)
     ctx.suite(suite, cases=len(inputs), agree=agree, mismatch=mism, property_false=bad, fragile_skipped=frag)
+    if prop == "C04":
+        link_suite(ctx, inputs, res, suite)
+
+
+HDR_POCKETS = ("From OP Require Import gen.Consts model.Base model.Pockets.\nRequire Import Coq.QArith.QArith.\nFrom Coq Require Import ZArith List.\n"
+               "Import ListNotations.\nLocal Open Scope Q_scope.\n")
+
+
+def link_suite(ctx, inputs, res, suite):
+    """C04 compares the utility profile with the column the implementation calls H_net_actual.  That this column IS the pocket-free
+    process GCC is decided here, independently of the code that produced it: at every row it must be the running minimum of the
+    observed H_net towards the far end of its side (specification spec_np of the pocket model, 4*tol slack, as in C07)."""
+    cf = CaseFile(ctx, suite + "_link", HDR_POCKETS, shard=60)
+    meta = []
+    for inp, objs in zip(inputs, res):
+        for name, st, codes, v, data in objs:
+            if name.endswith("Direct Integration") and isinstance(data, dict) and "Hn" in data and len(data["T"]) == len(data["Hn"]) == len(data["HA"]):
+                if all(a > b for a, b in zip(data["T"], data["T"][1:])):
+                    cf.add(f"[P_rows_slack tol (1 # 1000000000) {qlist(data['T'])} {qlist(data['Hn'])} {qlist(data['T'])} {qlist(data['HA'])}]")
+                    meta.append((inp, name, data))
+    agree = bad = 0
+    for (inp, name, data), v in zip(meta, cf.run()):
+        ctx.evaluations += 1
+        if v == [0]:
+            agree += 1
+            continue
+        bad += 1
+        if bad <= 2:
+            ctx.fail("actual-gcc-not-pocket-free", f"{name}: the column H_net_actual that utility targeting is fed is not the pocket-free form (running "
+                     "minimum towards the far end of each side) of the table's own H_net", suite=suite + "_link",
+                     input=dict(target=name, **inp), impl_output=dict(T=data["T"], H_net=data["Hn"], H_net_actual=data["HA"]),
+                     predicate="P_rows_slack (spec_np at every row, 4*tol slack)")
+    ctx.suite(suite + "_link", cases=len(meta), agree=agree, mismatch=0, property_false=bad, fragile_skipped=0)
 
 
 def run_stage_suite(ctx, prop, cases, suite):
